@@ -42,21 +42,43 @@ def expectedSites : List (String × String × String) := [
 /-- the ordering / decision statements `Strip.lean` transcribes:
 `addWhitespaceElementBy` (`score t ≥ score x` → insert before `x`), `Sheet.postImports` (`addImport` at the front,
 merge loop from `m_imports.begin()` appending at `end()`), `firstMatch`/`shouldStrip` (first matching tester
-decides with `eStrip`; non-element or absent parent → false; no match → false; guard on the two flags) -/
-def expectedFacts : List (String × String) := [
+decides: `eStrip` and `xml:space="preserve"` not in force; non-element or absent parent → false; no match →
+false; guard on the two flags), `spacePreservedWalk` (`isXMLSpacePreserved`: from the parent upwards, the nearest
+element with an `xml:space` attribute decides by comparing with "preserve"; none → false).
+`xmlSpace` = the five statements of the walk; `firstMatch` = the return statement of the first matching tester. -/
+def factsWith (firstMatch : String) (xmlSpace : List (String × String)) : List (String × String) := [
   ("addWhitespaceElement.compare", "if (theMatchScore >= (*i).getMatchScore())"),
   ("addWhitespaceElement.insert", "m_whitespaceElements.insert(i, theTester);"),
   ("addImport.insert", "m_imports.insert(m_imports.begin(), theStylesheet);"),
   ("postConstruction.merge",
    "m_whitespaceElements.insert( m_whitespaceElements.end(), (*i)->m_whitespaceElements.begin(), (*i)->m_whitespaceElements.end());"),
   ("postConstruction.mergeLoopStart", "StylesheetVectorType::iterator i = m_imports.begin();"),
-  ("internalShouldStrip.firstMatch",
-   "if (theTester(*theElement) != XPath::eMatchScoreNone) { return theTester.getType() == XalanSpaceNodeTester::eStrip; }"),
+  ("internalShouldStrip.firstMatch", firstMatch),
   ("internalShouldStrip.parentKind", "if (parent->getNodeType() == XalanNode::ELEMENT_NODE)"),
   ("internalShouldStrip.noParent", "if (parent == 0) return false;"),
-  ("internalShouldStrip.default", "return false;"),
+  ("internalShouldStrip.default", "return false;")] ++ xmlSpace ++ [
   ("shouldStrip.guard",
    "if (hasPreserveOrStripSpaceElements() == true && theNode.isWhitespace() == true) { return internalShouldStripSourceNode(theNode); } return false;")
 ]
+
+/-- the code as the model transcribes it (with proposed/C13-xml-space-preserve.diff applied) -/
+def expectedFacts : List (String × String) :=
+  factsWith
+    "if (theTester(*theElement) != XPath::eMatchScoreNone) { return theTester.getType() == XalanSpaceNodeTester::eStrip && isXMLSpacePreserved(theElement) == false; }"
+    [("xmlSpace.loop", "while (theElement != 0 && theElement->getNodeType() == XalanNode::ELEMENT_NODE)"),
+     ("xmlSpace.lookup", "theAttributes->getNamedItem(Constants::ATTRNAME_XMLSPACE);"),
+     ("xmlSpace.decide",
+      "if (theSpaceAttribute != 0) { return equals( theSpaceAttribute->getNodeValue(), Constants::ATTRVAL_PRESERVE); }"),
+     ("xmlSpace.ascend", "theElement = theElement->getParentNode();"),
+     ("xmlSpace.default", "return false;")]
+
+/-- the tree before that repair: no `xml:space` walk at all (known finding C13-xml-space-preserve-ignored; the
+model then differs from the code exactly in `Tag.preserve` being ignored, which the `strip` stream reports under
+that finding's key and nothing else) -/
+def expectedFactsBeforeXmlSpaceFix : List (String × String) :=
+  factsWith
+    "if (theTester(*theElement) != XPath::eMatchScoreNone) { return theTester.getType() == XalanSpaceNodeTester::eStrip; }"
+    [("xmlSpace.loop", "absent"), ("xmlSpace.lookup", "absent"), ("xmlSpace.decide", "absent"),
+     ("xmlSpace.ascend", "absent"), ("xmlSpace.default", "absent")]
 
 end XalanModel.C13
